@@ -28,11 +28,45 @@ def _valid_bytes(cg, opts, sets):
         return bytes.fromhex(r[4:])
     return None
 
+def _split_top(txt):
+    """elements of a canonical list text `[a;b;…]` (top level only)"""
+    inner, out, depth, cur = txt[1:-1], [], 0, ""
+    for ch in inner:
+        if ch in "[{":
+            depth += 1
+        elif ch in "]}":
+            depth -= 1
+        if ch == ";" and depth == 0:
+            out.append(cur); cur = ""
+        else:
+            cur += ch
+    if cur:
+        out.append(cur)
+    return out
+
+def _dup_elements(rng, f):
+    """a copy of the field dict in which every list-valued field carries EQUAL elements (first element repeated,
+    next to each other and apart): containers whose elements are byte-identical"""
+    g, changed = dict(f), False
+    for k, v in f.items():
+        if isinstance(v, str) and v.startswith("[") and v.endswith("]") and len(v) > 2:
+            el = _split_top(v)
+            if not el:
+                continue
+            e0 = el[0]
+            g[k] = "[" + ";".join([e0, e0] + el[1:2] + [e0] + el[2:3]) + "]"
+            changed = True
+    return g if changed else None
+
 def _samples(ctx, cg, n):
     out = []
-    for _ in range(n):
+    for i in range(n):
         opts = ctx.rng.choice(cg.opts)
         f = cg.valid(ctx.rng)
+        if i == n - 1:
+            g = _dup_elements(ctx.rng, f)
+            if g is not None and (not cg.can_pack or _valid_bytes(cg, opts, gen.sets(g)) is not None):
+                f = g
         sets = gen.sets(f)
         b = _valid_bytes(cg, opts, sets) if cg.can_pack else None
         out.append((opts, f, sets, b))
@@ -248,6 +282,76 @@ def check_no_sharing(args):
             cls, fresh[1][:200], before[1][:200])
     return None
 
+def _walk_mutables(o, path, seen, out, depth=0):
+    """(id -> first path) of every mutable thing reachable from o through attributes and list elements"""
+    if depth > 4:
+        return
+    items = []
+    if isinstance(o, list):
+        items = [("%s[%d]" % (path, i), v) for i, v in enumerate(o)]
+    elif hasattr(o, "__dict__") and not isinstance(o, type):
+        items = [("%s.%s" % (path, k), v) for k, v in vars(o).items()]
+    for p, v in items:
+        mutable = isinstance(v, (list, bytearray, dict)) or (hasattr(v, "__dict__") and not isinstance(v, type)
+                                                             and type(v).__module__.startswith("AcraNetwork"))
+        if not mutable or callable(v) and not hasattr(v, "pack"):
+            continue
+        if id(v) in seen:
+            out.append((seen[id(v)], p, v))
+            continue
+        seen[id(v)] = p
+        _walk_mutables(v, p, seen, out, depth + 1)
+
+def check_internal_aliasing(args):
+    """the parts of ONE decoded object are separate objects: changing one element in place (assigning an
+    attribute, decoding into it) must not change another element — `unpack` may not hand out the same mutable
+    object twice (e.g. for byte-identical elements of a container)"""
+    cls, opts = args["cls"], args["opts"]
+    a = ADAPTERS[cls]
+    cg = _classgens()[cls]
+    po = [pyval(parse_val(x)) for x in opts]
+    x = a.ctor(*po)
+    r = guarded(lambda: a.unpack(x, bytes.fromhex(args["buf"]), *[pyval(parse_val(v)) for v in cg.unpack_args]))
+    if r[0] != "ok":
+        return None
+    dup = []
+    _walk_mutables(x, cls, {}, dup)
+    for p1, p2, v in dup:
+        if isinstance(v, (list, bytearray, dict)) and len(v) == 0 and False:
+            continue
+        return "%s.unpack: %s and %s of the decoded object are the SAME %s object: changing one in place changes the other" % (
+            cls, p1, p2, type(v).__name__)
+    return None
+
+def oracle_internal_aliasing(ctx, classes=None):
+    fails, n = [], 0
+    for name, cg in sorted(_classgens().items()):
+        if classes is not None and name not in classes:
+            continue
+        if not (cg.can_pack and cg.can_unpack):
+            continue
+        bad = False
+        for opts in cg.opts[:3]:
+            for j in range(ctx.scale(4, 40)):
+                f = cg.valid(ctx.rng)
+                g = _dup_elements(ctx.rng, f) if j % 2 == 0 else None
+                b = _valid_bytes(cg, opts, gen.sets(g)) if g is not None else None
+                if b is None:
+                    b = _valid_bytes(cg, opts, gen.sets(f))
+                if b is None:
+                    continue
+                args = {"cls": cg.cls, "opts": list(opts), "buf": b.hex()}
+                n += 1
+                w = check_internal_aliasing(args)
+                if w:
+                    fails.append(Failure("internal_aliasing", args, w, {"class": cg.cls, "check": "aliasing"}))
+                    bad = True
+                    break
+            if bad:
+                break
+    ctx.count("oracle_evaluations", n)
+    return fails
+
 def oracle_no_sharing(ctx, classes=None):
     """run for every codec class (cheap); contributes to every codec property: a round trip 'into a new object'
     means nothing if new objects share state"""
@@ -326,7 +430,7 @@ def oracles_C13(ctx, hints):
             if bad:
                 break
     ctx.count("oracle_evaluations", n)
-    return fails + oracle_no_sharing(ctx)
+    return fails + oracle_no_sharing(ctx) + oracle_internal_aliasing(ctx)
 
 # ------------------------------------------------------------------------------------------- C14
 def _twins(ctx, cg):
@@ -550,5 +654,5 @@ def oracles_C08(ctx, hints):
     ctx.count("oracle_evaluations", n)
     return fails
 
-ORACLES = {"no_sharing": check_no_sharing, "forwarded": check_forwarded, "history_independence": check_history_independence, "two_objects": check_two_objects,
+ORACLES = {"no_sharing": check_no_sharing, "internal_aliasing": check_internal_aliasing, "forwarded": check_forwarded, "history_independence": check_history_independence, "two_objects": check_two_objects,
            "eq": check_eq, "eq_decode": check_eq_decode, "eq_foreign": check_eq_foreign, "total": check_total}
